@@ -1,12 +1,12 @@
 SPECIFICATION Spec
 CONSTANTS
-  Program <- McMain
+  Program <- McFault
   ControlTakesLock = TRUE
   FlushAtomic = TRUE
   LatchChecked = TRUE
-  CloseLatches = FALSE
+  CloseLatches = TRUE
   TimeoutReleases = FALSE
   HandlerControlPath = TRUE
-  TimeoutFaultLatches = TRUE
-INVARIANTS TypeOK WholeFrames InOrder AfterClose
+  TimeoutFaultLatches = FALSE
+INVARIANTS TypeOK CutIsLast
 CHECK_DEADLOCK FALSE
